@@ -68,7 +68,7 @@ def run(tier, seed):
     families = [("sp", "pr", "tcp")] if q else [("sp", "pr", "tcp"), ("tcp", "pw", "sp"), ("pw", "sp", "pr")]
     D = 14 if q else 22
     nsim = 20 if q else 300
-    maxh = 80 if q else 1500
+    maxh = 80 if q else 800
     ops = {}
     verdict_hist = {}
     noise = []
@@ -208,3 +208,21 @@ def run(tier, seed):
         "agreement is compared on fds whose probes are identical in all configurations and free of HUP/ERR/NVAL",
     ]
     return chk.finish()
+
+
+def replay(case, seed):
+    """./check C04 --replay out/replay/C04/violation_N.json (trace-validation violations): re-execute and re-validate."""
+    c = case.get("case", case)
+    if "backend" not in c:
+        print("replay is supported for trace-validation violations only")
+        return 2
+    exe = bc.build_driver()
+    kinds = c["kinds"]
+    cons = bc.consts(c["backend"], 30, nfd=3, nev=3, kinds=kinds, acts=ACTS)
+    dc, outs = bc.run_real(exe, [c["h"]], cons, c["backend"], c["sigfd"])
+    events = bc.trace_events(c["h"], outs[0], 0)
+    res, verdicts, done = bc.validate_trace("C04_replay", cons, events)
+    for v in verdicts:
+        print("VIOLATION property=C04 replay: %s at %s" % (v["verdict"], json.dumps(events[v["l"] - 1])))
+    print(json.dumps(outs[0]))
+    return 1 if verdicts else (0 if done else 2)
